@@ -176,7 +176,8 @@ def main():
                 continue
             xsc = cond * bsc / smin * smax          # size of the solution times conditioning
             if what == "LU":
-                if bool(res["singular"]) != (rank < n):
+                # (an exactly singular matrix may leave a pivot of rounding size: only the converse is demanded)
+                if res["singular"] and rank == n:
                     rep.violation(tag + "/isSingular", {"case": c}, "FactorLU(%s).isSingular() = %s for a matrix of rank %d of %d" % (prec, res["singular"], rank, n))
                 if not res["singular"] and rank == n:
                     chk("solve-vector", [row[0] for row in X], cplx(res["x"]), xsc)
@@ -199,7 +200,7 @@ def main():
                 if "inv" in res and (rank == min(m, n) and m == n or what == "SVD"):
                     chk("inverse" if rank == n == m else "pseudo-inverse", pinv, cplx(res["inv"]), cond / smin)
                 if what == "SVD":
-                    sv = sorted(s, reverse=True)
+                    sv = sorted([abs(x) for x in s], reverse=True)
                     chk("singular-values-descending", sv, [x[0] for x in res["sv"]], smax)
                     chk("singular-values-descending(with vectors)", sv, [x[0] for x in res["sv2"]], smax)
                     if any(x[0] < 0 for x in res["sv"]):
